@@ -272,6 +272,19 @@ class Gen:
         lv = rng.choice(free) if free and rng.random() < 0.9 else ""
         choice = rng.random()
         group, sort, kind = "", 0, "scalar"
+        if scope and scope[-1][1] == "group" and rng.random() < 0.35:
+            # a sorted, ungrouped loop over a member of the CALLER's value (or the root) nested in a
+            # grouped loop: sort must work on a private copy whatever the parent did (C17)
+            which = rng.random()
+            if which < 0.45 and self.sortable:
+                setp, kind = P("list"), ("scalar_int" if self.sortable_int() else "scalar")
+            elif which < 0.85:
+                setp = P("obj")
+            else:
+                setp = None
+            sort = rng.choice([1, 2])
+            inner_scope = scope + ([(lv, kind)] if lv else [])
+            return ("l", setp, lv, "", sort, self.nodes(inner_scope, depth + 1))
         if scope and choice < 0.25:
             plv, pkind = scope[-1]
             if pkind == "group":
